@@ -11,6 +11,7 @@ ENVP = [M, M + "/ptrify", M + "/common", M + "/transform", M + "/parse", M + "/t
         "github.com/fatih/structtag", "strings", "unicode/utf8", "strconv", "go/token", "text/scanner", "bytes", "io"]
 FLAGP = ENVP + [M + "/sources/flag/flaghelper", "flag", "sort"]
 HELP = [M + "/parse", "strings", "unicode/utf8", "strconv", "go/token", "text/scanner", "bytes", "io", "sort"]
+EZP = ENVP + [M + "/sourcewrap", M + "/sources/env", "sort"]
 TEXT = ["strings", "unicode/utf8", "strconv", "text/scanner", "bytes", "io", "go/token"]
 
 COMMON_ASSUME = [
@@ -178,6 +179,12 @@ CHECKS = {
             {"entry": M + "/sources/flag.HarnessC12Scalars", "pkgs": FLAGP, "must_reach": ["c12-end", "c12-error"]},
             {"entry": M + "/sources/flag.HarnessC12Collections", "pkgs": FLAGP, "must_reach": ["c12-end", "c12-error"]},
             {"entry": M + "/sources/flag.HarnessC12All", "pkgs": FLAGP, "must_reach": ["c12-end", "c12-error"], "tiers": ["thorough"]},
+        ],
+    },
+    "C18": {
+        "runs": [
+            {"entry": M + "/ez.HarnessC18NoWatch", "pkgs": EZP, "must_reach": ["c18-end", "c18-verify-error", "c18-file-error"], "instrument": [M, M + "/sourcewrap", M + "/ez"], "validate": 0},
+            {"entry": M + "/ez.HarnessC18Watch", "pkgs": EZP, "must_reach": ["c18-end"], "instrument": [M, M + "/sourcewrap", M + "/ez"], "validate": 0},
         ],
     },
     "C14": {
